@@ -469,18 +469,24 @@ def r04_3(q, R, spec):
                 out = pe.run(m, {})
                 got = strip(T.show(out[1])) if out[0] == "ok" else out[0]
                 R.inst(rid, "zip_map:%s" % cname, got == want, sp=m["sp"], expect=want, got=got)
-            # the key set is the union of both key sets
+            # result = for every key of the union of both key sets: (key, combiner(<the combination above>)?)
+            # (iterator chains, one or two passes, or explicit loops: lib/c04_util.describe_collection gives one normal form)
             pe = U.PathEval()
-            pe.run_body(fn, [S("a"), S("b"), S("combiner")])
-            ch = pe.calls_named("chain")
-            ok_u = len(ch) == 1 and sorted(T.show(x) for x in ch[0]["args"]) == ["keys($a)", "keys($b)"]
-            R.inst(rid, "zip_map:key-union", ok_u, sp=fn["sp"], got=[[T.show(x) for x in e["args"]] for e in ch], expect="a.keys().chain(b.keys())")
-            outs = []
-            for e in pe.calls_named("map"):
-                if len(e["args"]) == 2 and e["args"][1][0] == "closure" and len(e["args"][1][1]["params"]) == 1 \
-                        and H.pat_peel(e["args"][1][1]["params"][0]).get("k") == "ptuple":
-                    outs.append(strip(T.show(pe.apply(e["args"][1], [("t", [S("key"), S("value")])]))))
-            R.inst(rid, "zip_map:entry", outs == ["Ok((key, combiner(value)))"], sp=fn["sp"], got=outs, expect="Ok((key.clone(), combiner(value)?)) for every key of the union")
+            out, env = pe.run_body(fn, [S("a"), S("b"), S("combiner")])
+            o = U.outcome_value(out)
+            base, per_key = U.describe_collection(pe, o[1]) if len(o) > 1 else (None, None)
+            ok_u = base is not None and U.is_call(base, "chain") and sorted(T.show(x) for x in U.call_args(base)) == ["keys($a)", "keys($b)"]
+            R.inst(rid, "zip_map:key-union", ok_u, sp=fn["sp"], got=showv(base) if base else o[0], expect="a.keys().chain(b.keys())")
+            ent = per_key(S("k")) if per_key else None
+            ok_e = False
+            if ent is not None and ent[0] == "t" and len(ent[1]) == 2 and ent[1][0] == S("k") and U.is_call(ent[1][1], "$combiner"):
+                c = ent[1][1]
+                ce = pe.by_nid.get(c[4])
+                arg = U.call_args(c)
+                ok_e = bool(ce and ce["tried"]) and len(arg) == 1 and U.kind_of(arg[0]) == "match" and arg[0][3][0] == id(m) \
+                    and T.show(arg[0][3][1]) == "(get($a, $k), get($b, $k))"
+            R.inst(rid, "zip_map:entry", ok_e, sp=fn["sp"], got=strip(showv(ent)) if ent else None,
+                   expect="(key.clone(), combiner(match (a.get(key), b.get(key)) {..})?) for every key of the union")
     # zip_map_combination
     fn = fn_in(q, "zip_map_combination", within="diff_and_merge")
     if R.anchor(rid, "fn zip_map_combination", fn):
@@ -507,12 +513,15 @@ def r04_3(q, R, spec):
         if R.anchor(rid, "fn " + name, fn):
             pe = U.PathEval()
             out, env = pe.run_body(fn, [S("map"), S("combiner")])
-            mp = [e for e in pe.calls_named("map") if len(e["args"]) == 2 and e["args"][1][0] == "closure"]
-            got = None
-            if len(mp) == 1:
-                r = pe.apply(mp[0]["args"][1], [("t", [S("key"), S("value")])])
-                got = strip(T.show(r))
-            R.inst(rid, "%s:entry" % name, got == "Ok((key, combiner(value)))", sp=fn["sp"], expect="Ok((key.clone(), combiner(value)?))", got=got)
+            o = U.outcome_value(out)
+            base, per_entry = U.describe_collection(pe, o[1]) if len(o) > 1 else (None, None)
+            ent = per_entry(("t", [S("key"), S("value")])) if per_entry else None
+            ok = base == S("map") and ent is not None and strip(T.show(ent)) == "(key, combiner(value))" and ent[0] == "t"
+            if ok:
+                ce = pe.by_nid.get(ent[1][1][4]) if U.kind_of(ent[1][1]) == "call" else None
+                ok = bool(ce and ce["tried"])
+            R.inst(rid, "%s:entry" % name, ok, sp=fn["sp"], expect="for every (key, value) of map: (key.clone(), combiner(value)?)",
+                   got={"source": showv(base) if base else None, "entry": strip(showv(ent)) if ent else None})
     # diff()
     fn = fn_in(q, "diff", impl_ty="MappingsDiff")
     if R.anchor(rid, "fn MappingsDiff::diff", fn):
@@ -555,43 +564,54 @@ def r04_4(q, R, spec):
         if not R.anchor(rid, "TinyLine::%s: match (a, b)" % name, len(ms) == 1, sp=fn["sp"]):
             continue
         m = ms[0]
-        # columns: the scrutinee's components are the locals bound from the 1st and 2nd `self.fields.next()`
-        pe = U.PathEval()
-        out, env = pe.run_body(fn, [S("self")])
-        nexts = [e for e in pe.calls_named("next") if e["args"] and T.show(e["args"][0]) == "$self.fields" and e["cond"] == 0]
-        es = H.peel(m["scrut"])["es"]
-        col_ok = len(nexts) == 2 and len(es) == 2
-        got_cols = []
-        filt_ok = True
-        if col_ok:
-            for j, e in enumerate(es):
-                loc = H.local_of(e)
-                v = env.get(loc[0]) if loc else None
-                # v = transpose(map(filter(next(self.fields), closure), closure)) (map_err / `?` transparent)
-                chain = []
-                x = v
-                nx = None
-                flt = None
-                while x is not None and U.kind_of(x) == "call":
-                    chain.append(U.call_name(x))
-                    if U.call_name(x) == "filter":
-                        flt = x
-                    if U.call_name(x) == "next":
-                        nx = x
-                        break
-                    x = U.call_args(x)[0] if U.call_args(x) else None
-                got_cols.append(chain)
-                if nx is None or nx[4] != nexts[j]["nid"]:
-                    col_ok = False
-                # empty = absent
-                f_ok = False
-                if flt is not None and len(U.call_args(flt)) == 2 and U.call_args(flt)[1][0] == "closure":
-                    r = pe.apply(U.call_args(flt)[1], [S("x")])
-                    f_ok = U.kind_of(r) == "not" and U.is_call(r[3][0], "is_empty") and U.call_args(r[3][0]) == [S("x")]
-                filt_ok = filt_ok and f_ok
-        R.inst(rid, "%s:columns-in-order" % name, col_ok, sp=fn["sp"], got=got_cols,
-               expect="(a, b) = (1st self.fields.next(), 2nd self.fields.next())")
-        R.inst(rid, "%s:empty-is-absent" % name, col_ok and filt_ok, sp=fn["sp"], expect=".filter(|x| !x.is_empty()) on both columns", got=got_cols)
+        # columns: decided as a table over the state of the two columns (absent / empty / non-empty), evaluated through whatever
+        # shape the decoding has (`.filter(|x| !x.is_empty())`, `if x.is_empty() { None } ..`, a private helper of TinyLine):
+        # a is built from the 1st `self.fields.next()` only, b from the 2nd only, and an absent or empty column gives None.
+        helpers = {b["key"]: b for b in q.bodies if b.get("name") and (b.get("impl_ty") or "").endswith("tiny_line::TinyLine")
+                   and not b.get("impl_trait") and b["name"] not in ("action", "action_string") and "body" in b}
+        order_ok, empty_ok, got_cols = True, True, {}
+        pe = None
+        for st1 in ("absent", "empty", "text"):
+            for st2 in ("absent", "empty", "text"):
+                states = [st1, st2]
+                counter = []
+
+                def next_hook(args, n, pe_, states=states, counter=counter):
+                    if not args or T.show(args[0]) != "$self.fields":
+                        return None
+                    i = len(counter)
+                    counter.append(i)
+                    if i >= 2:
+                        return T.V("None")
+                    return T.V("None") if states[i] == "absent" else T.V("Some", S("col%d" % (i + 1)))
+
+                def empty_hook(args, n, pe_, states=states):
+                    for i in (0, 1):
+                        if args and args[0] == S("col%d" % (i + 1)):
+                            return ("b", states[i] == "empty")
+                    return None
+
+                pe = U.PathEval(inline=helpers, hooks={"next": next_hook, "is_empty": empty_hook})
+                out, env = pe.run_body(fn, [S("self")])
+                sv = U.PathEval().run(m["scrut"], dict(env))
+                vals = sv[1][1] if sv[0] == "ok" and sv[1][0] == "t" and len(sv[1][1]) == 2 else [T.sym("?"), T.sym("?")]
+                shown = [T.show(x) for x in vals]
+                got_cols["%s,%s" % (st1, st2)] = [strip(x) for x in shown]
+                for i, stt in enumerate(states):
+                    mine, other = "$col%d" % (i + 1), "$col%d" % (2 - i)
+                    if stt == "text":
+                        if not (vals[i] != T.V("None") and mine in shown[i] and other not in shown[i]):
+                            order_ok = False
+                    elif vals[i] != T.V("None"):
+                        if stt == "empty":
+                            empty_ok = False
+                        else:
+                            order_ok = False
+        R.inst(rid, "%s:columns-in-order" % name, order_ok, sp=fn["sp"], got=got_cols,
+               expect="(a, b) = (from the 1st self.fields.next() only, from the 2nd only); an absent column is None")
+        R.inst(rid, "%s:empty-is-absent" % name, empty_ok, sp=fn["sp"], expect="an empty column decodes to None (both columns)", got=got_cols)
+        pe = U.PathEval(inline=helpers)
+        pe.run_body(fn, [S("self")])
         g = pe.guards()
         R.inst(rid, "%s:no-further-columns" % name, any(x[0] == "atom" and "is_empty(" in x[1] and "$self.fields" in x[1] and x[2] is True for x in g),
                sp=fn["sp"], got=g, expect="remaining fields must be empty, otherwise Err")
@@ -668,6 +688,19 @@ def unwrap_result_expr(e):
             e = e["recv"]
         else:
             return e
+
+
+def callable_arg(body, e):
+    """The argument is a closure literal, a local bound to one (`let f = |..| ..;`), or a function item; what it builds is checked
+    where its node literal stands (the type checker fixes its signature)."""
+    e0 = H.peel(e)
+    if e0.get("k") == "closure":
+        return True
+    loc = H.local_of(e0)
+    if loc:
+        init = H.let_init_of(body, loc[0])
+        return init is not None and H.peel(init).get("k") == "closure"
+    return e0.get("k") == "path" and e0["res"].get("r") == "def" and e0["res"].get("dk") in ("Fn", "AssocFn")
 
 
 def short(adt):
@@ -748,8 +781,7 @@ def r04_5(q, R, spec):
                     r1, p1 = H.place_root(c["args"][2])
                     ok = (bool(nsl) and nsl[0] == ns_local and r0 is not None and r0[0] == diff_id and p0 == [fname]
                           and r1 is not None and r1[0] == src_id and p1 == [fname] and H.peel(c["args"][2]).get("k") == "field")
-                    cl = H.peel(c["args"][3])
-                    child_ok = cl.get("k") == "closure"
+                    child_ok = callable_arg(body, c["args"][3])
                 R.inst(rid, key, ok and child_ok, sp=e["sp"],
                        expect="apply_diff_map(namespace, &<same-level diff>.%s, <same-level source>.%s, |diff, x| ..)?" % (fname, fname), got=H.render(c)[:200])
             else:
@@ -1022,7 +1054,7 @@ def diff_levels(q, R, rid, spec, fn):
                             pb = H.pat_bindings(pc["params"][0])
                             root, path = H.place_root(pc["body"])
                             ok = bool(pb) and root is not None and root[0] == pb[0][0] and path == [fname]
-                    ok = ok and H.peel(c["args"][1]).get("k") == "closure"
+                    ok = ok and callable_arg(body, c["args"][1])
                 R.inst(rid, key, ok, sp=e["sp"], expect="zip_map_combination(<same-level ab>.map(|x| &x.%s), |ab| ..)?" % fname, got=H.render(c)[:160])
             else:
                 R.unrecognised(rid, key, "field without a rule", sp=e["sp"])
